@@ -204,6 +204,7 @@ def run_check(prop: Prop, tier, seed, replay=None):
     spec_fail = []
     dist = {}
     seen = set()
+    groups = {}
     nontriv = 0
     timeouts = 0
     model_timeouts = 0
@@ -242,6 +243,12 @@ def run_check(prop: Prop, tier, seed, replay=None):
             if prop.observable(impl[i]) != prop.observable(m) and not prop.corr_excused(c, impl[i], m):
                 corr_fail.append((i, c, impl[i], m, s))
             reason = prop.spec_verdict(c, impl[i], s)
+            if not reason and c.group is not None and getattr(prop, "generic_groups", False):
+                # metamorphic oracle: all cases of one group must answer alike
+                first = groups.setdefault(c.group, (c, prop.observable(impl[i])))
+                if first[1] != prop.observable(impl[i]):
+                    reason = (f"two spellings of one expression answer differently: {first[0].text!r} -> {first[1][:90]}, "
+                              f"{c.text!r} -> {prop.observable(impl[i])[:90]}")
             if reason:
                 spec_fail.append((i, c, impl[i], m, s, reason))
             if c.line not in seen:
